@@ -64,6 +64,10 @@ pub struct Case {
     /// what the splitter party's n_splits() reports when it is not the number of folds it hands out
     #[serde(default)]
     pub n_splits_report: Option<usize>,
+    /// cross_val_predict only: the estimator party's prediction for this row id is not finite (1 = +inf, 2 = -inf,
+    /// 3 = NaN) — a legitimate prediction that has to be placed like any other
+    #[serde(default)]
+    pub nonfinite_pred: Option<(usize, u8)>,
 }
 
 pub struct C16;
@@ -83,7 +87,7 @@ fn split_generic<T: RealNumber, M: smartcore::linalg::Matrix<T>>(x: &M, y: &M::R
             }
             let id = idf as usize;
             for j in 1..c {
-                if f(m.get(i, j)) != cell(id, j) {
+                if !same_cell(f(m.get(i, j)), cell(id, j)) {
                     return Err(format!("row {} (id {}) column {} holds {} instead of {}", i, id, j, f(m.get(i, j)), cell(id, j)));
                 }
             }
@@ -144,9 +148,19 @@ fn g_inv(y: f64) -> Option<usize> {
         None
     }
 }
+/// bit-wise comparison of a cell with what the workload put there (-0.0 is not +0.0; NaN matches NaN)
+fn same_cell(got: f64, want: f64) -> bool {
+    (got.is_nan() && want.is_nan()) || got.to_bits() == want.to_bits()
+}
+
 fn cell(i: usize, j: usize) -> f64 {
     if j == 0 {
         i as f64
+    } else if (i * 7 + j) % 11 == 3 {
+        // some cells hold a negative zero, some a NaN (a missing value): a split moves rows, it does not clean them
+        -0.0
+    } else if (i * 5 + j) % 13 == 4 {
+        f64::NAN
     } else {
         // in floating point: a corrupted id cell must not overflow the harness's own arithmetic
         i as f64 * 8.0 + j as f64 + 0.5
@@ -179,7 +193,7 @@ fn ids_of<T: RealNumber>(x: &DenseMatrix<T>) -> Result<Vec<usize>, String> {
         }
         let id = idf as usize;
         for j in 1..c {
-            if f(x.get(i, j)) != cell(id, j) {
+            if !same_cell(f(x.get(i, j)), cell(id, j)) {
                 return Err(format!(
                     "row {} (id {}) column {} holds {} instead of {}",
                     i,
@@ -259,6 +273,7 @@ struct Est<T> {
     predict_calls: RefCell<u8>,
     fail_predict: Option<u8>,
     allow_train_predict: bool,
+    nonfinite: Option<(usize, u8)>,
 }
 
 impl<T: RealNumber> Predictor<DenseMatrix<T>, Vec<T>> for Est<T> {
@@ -305,7 +320,14 @@ impl<T: RealNumber> Predictor<DenseMatrix<T>, Vec<T>> for Est<T> {
         }
         Ok(ids
             .iter()
-            .map(|id| T::from_f64((self.fold as f64 + 1.0) * FOLD_BASE + *id as f64).unwrap())
+            .map(|id| match self.nonfinite {
+                Some((row, kind)) if row == *id => match kind {
+                    1 => T::infinity(),
+                    2 => T::neg_infinity(),
+                    _ => T::nan(),
+                },
+                _ => T::from_f64((self.fold as f64 + 1.0) * FOLD_BASE + *id as f64).unwrap(),
+            })
             .collect())
     }
 }
@@ -323,6 +345,7 @@ fn fit_party<T: RealNumber>(
     hist: &Rc<RefCell<Hist>>,
     fail_at: Option<(usize, u8)>,
     allow_train_predict: bool,
+    nonfinite: Option<(usize, u8)>,
 ) -> impl Fn(&DenseMatrix<T>, &Vec<T>, ()) -> Result<Est<T>, Failed> + '_ {
     move |x: &DenseMatrix<T>, y: &Vec<T>, _p: ()| {
         let mut h = hist.borrow_mut();
@@ -368,6 +391,7 @@ fn fit_party<T: RealNumber>(
             predict_calls: RefCell::new(0),
             fail_predict,
             allow_train_predict,
+            nonfinite,
         })
     }
 }
@@ -509,6 +533,7 @@ fn forced_small() -> &'static Small {
                             ctor: (pi % 3) as u8,
                             backend: 0,
                             n_splits_report: None,
+                            nonfinite_pred: None,
                         });
                     }
                 }
@@ -530,6 +555,7 @@ fn forced_small() -> &'static Small {
                         ctor: 0,
                         backend: ((pi as usize + nt) % 6) as u8,
                         n_splits_report: None,
+                        nonfinite_pred: None,
                     });
                 }
             }
@@ -796,11 +822,11 @@ impl C16 {
                             T::from_f64(ret).unwrap()
                         };
                         Out::Scores(
-                            cross_validate(fit_party::<T>(&hist, case.fail_at, true), &x, &y, (), cvk, score)
+                            cross_validate(fit_party::<T>(&hist, case.fail_at, true, None), &x, &y, (), cvk, score)
                                 .map(|r| (r.train_score.iter().map(|v| f(*v)).collect(), r.test_score.iter().map(|v| f(*v)).collect())),
                         )
                     } else {
-                        Out::Pred(cross_val_predict(fit_party::<T>(&hist, case.fail_at, false), &x, &y, (), cvk).map(|v| v.iter().map(|z| f(*z)).collect()))
+                        Out::Pred(cross_val_predict(fit_party::<T>(&hist, case.fail_at, false, case.nonfinite_pred), &x, &y, (), cvk).map(|v| v.iter().map(|z| f(*z)).collect()))
                     }
                 });
                 let h = hist.borrow();
@@ -909,6 +935,17 @@ impl C16 {
                                         for (i, v) in yhat.iter().enumerate() {
                                             if case.custom_folds.is_some() && !tests.iter().any(|t| t.contains(&i)) {
                                                 continue; // row held out by no fold of the splitter party
+                                            }
+                                            if let Some((row, kind)) = case.nonfinite_pred {
+                                                if row == i {
+                                                    let ok = match kind { 1 => *v == f64::INFINITY, 2 => *v == f64::NEG_INFINITY, _ => v.is_nan() };
+                                                    if !ok {
+                                                        rep.fail("prediction-misplaced", opname, format!("{}: the estimator predicted a non-finite value (kind {}) for row {}, position {} holds {}", ctx, kind, i, i, v));
+                                                        break;
+                                                    }
+                                                    rep.count("fault.non-finite-prediction", 1);
+                                                    continue;
+                                                }
                                             }
                                             match decode_pred(*v) {
                                                 None => {
@@ -1084,7 +1121,7 @@ impl Property for C16 {
             "noshuffle-exhaustive" => {
                 let (n, k) = noshuffle_pairs()[(index / 3) as usize];
                 let op = [Op::KFold, Op::CrossValPredict, Op::CrossValidate][(index % 3) as usize].clone();
-                Case { op, n, k, p: 1 + (index % 3) as usize, shuffle: false, fail_at: None, tape: TapeSpec::prng(tape_seed), kind: "noshuffle".into(), f32m: (n + k) % 4 == 0, custom_folds: None, ctor: ((n * 3 + k) % 3) as u8, backend: 0, n_splits_report: None }
+                Case { op, n, k, p: 1 + (index % 3) as usize, shuffle: false, fail_at: None, tape: TapeSpec::prng(tape_seed), kind: "noshuffle".into(), f32m: (n + k) % 4 == 0, custom_folds: None, ctor: ((n * 3 + k) % 3) as u8, backend: 0, n_splits_report: None, nonfinite_pred: None }
             }
             "split-noshuffle" => {
                 let f32m = index % 2 == 1;
@@ -1095,7 +1132,7 @@ impl Property for C16 {
                 while ((n as f32) * ts) as usize == 0 {
                     n += 7;
                 }
-                Case { op: Op::Split { test_size: ts, f32m }, n, k: 2, p: 1 + (index % 4) as usize, shuffle: false, fail_at: None, tape: TapeSpec::prng(tape_seed), kind: "noshuffle".into(), f32m: false, custom_folds: None, ctor: 0, backend: bk, n_splits_report: None }
+                Case { op: Op::Split { test_size: ts, f32m }, n, k: 2, p: 1 + (index % 4) as usize, shuffle: false, fail_at: None, tape: TapeSpec::prng(tape_seed), kind: "noshuffle".into(), f32m: false, custom_folds: None, ctor: 0, backend: bk, n_splits_report: None, nonfinite_pred: None }
             }
             "forced-perm-exhaustive" => forced_small().cases[index as usize].clone(),
             "split-boundary" => {
@@ -1113,25 +1150,25 @@ impl Property for C16 {
                 while ((n2 as f32) * ts) as usize == 0 {
                     n2 += 1; // precondition of the property: floor(n * test_size) >= 1
                 }
-                Case { op: Op::Split { test_size: ts, f32m: index % 2 == 1 }, n: n2, k: 2, p: 1 + (index % 3) as usize, shuffle: index % 4 < 2, fail_at: None, tape: TapeSpec::prng(tape_seed), kind: "prng".into(), f32m: false, custom_folds: None, ctor: 0, backend: bk, n_splits_report: None }
+                Case { op: Op::Split { test_size: ts, f32m: index % 2 == 1 }, n: n2, k: 2, p: 1 + (index % 3) as usize, shuffle: index % 4 < 2, fail_at: None, tape: TapeSpec::prng(tape_seed), kind: "prng".into(), f32m: false, custom_folds: None, ctor: 0, backend: bk, n_splits_report: None, nonfinite_pred: None }
             }
             "split-huge" => {
                 let n = if index % 3 == 2 { (1usize << 25) + r.usize_in(1, 64) } else { (1usize << 24) + r.usize_in(1, 64) };
                 let ts = *r.pick(&[0.75f32, 0.3, 0.1, 0.9, 0.5, 0.33333334]);
-                Case { op: Op::Split { test_size: ts, f32m: false }, n, k: 2, p: 1, shuffle: false, fail_at: None, tape: TapeSpec::prng(tape_seed), kind: "noshuffle".into(), f32m: false, custom_folds: None, ctor: 0, backend: 0, n_splits_report: None }
+                Case { op: Op::Split { test_size: ts, f32m: false }, n, k: 2, p: 1, shuffle: false, fail_at: None, tape: TapeSpec::prng(tape_seed), kind: "noshuffle".into(), f32m: false, custom_folds: None, ctor: 0, backend: 0, n_splits_report: None, nonfinite_pred: None }
             }
             "kfold-many-folds" => {
                 let k = *r.pick(&[65_537usize, 65_536, 65_538, 70_001]);
                 let k = if index == 0 { 65_537 } else { k };
                 let n = k + *r.pick(&[0usize, 0, 1, 5]);
-                Case { op: Op::KFoldHead { folds: 300 }, n, k, p: 1, shuffle: false, fail_at: None, tape: TapeSpec::prng(tape_seed), kind: "noshuffle".into(), f32m: false, custom_folds: None, ctor: (index % 3) as u8, backend: 0, n_splits_report: None }
+                Case { op: Op::KFoldHead { folds: 300 }, n, k, p: 1, shuffle: false, fail_at: None, tape: TapeSpec::prng(tape_seed), kind: "noshuffle".into(), f32m: false, custom_folds: None, ctor: (index % 3) as u8, backend: 0, n_splits_report: None, nonfinite_pred: None }
             }
             "split-large" => {
                 // train_test_split has no upper bound on n in the property: a few thousand rows, shuffled and not
                 let n = r.usize_in(1000, 20000);
                 let ts = if r.chance(0.5) { *r.pick(&TEST_SIZES) } else { r.range(0.0005, 1.0) as f32 };
                 let ts = if ((n as f32) * ts) as usize == 0 { 0.5 } else { ts };
-                Case { op: Op::Split { test_size: ts, f32m: false }, n, k: 2, p: r.usize_in(1, 3), shuffle: r.chance(0.6), fail_at: None, tape: TapeSpec::prng(tape_seed), kind: "prng".into(), f32m: false, custom_folds: None, ctor: 0, backend: bk, n_splits_report: None }
+                Case { op: Op::Split { test_size: ts, f32m: false }, n, k: 2, p: r.usize_in(1, 3), shuffle: r.chance(0.6), fail_at: None, tape: TapeSpec::prng(tape_seed), kind: "prng".into(), f32m: false, custom_folds: None, ctor: 0, backend: bk, n_splits_report: None, nonfinite_pred: None }
             }
             _ => {
                 let hi = if big { 300 } else { 64 };
@@ -1156,9 +1193,15 @@ impl Property for C16 {
                     5..=7 => Op::CrossValPredict,
                     _ => Op::CrossValidate,
                 };
-                let mut c = Case { op, n, k, p, shuffle: true, fail_at: None, tape: TapeSpec::prng(tape_seed), kind: "prng".into(), f32m: r.chance(0.25), custom_folds: None, ctor: r.below(3) as u8, backend: 0, n_splits_report: None };
+                let mut c = Case { op, n, k, p, shuffle: true, fail_at: None, tape: TapeSpec::prng(tape_seed), kind: "prng".into(), f32m: r.chance(0.25), custom_folds: None, ctor: r.below(3) as u8, backend: 0, n_splits_report: None, nonfinite_pred: None };
                 if matches!(c.op, Op::Split { .. }) {
                     c.backend = bk;
+                }
+                if c.op == Op::CrossValPredict {
+                    let mut nf = Xo::fork(seed, "nonfinite");
+                    if nf.chance(0.06) {
+                        c.nonfinite_pred = Some((nf.below(n as u64) as usize, 1 + nf.below(3) as u8));
+                    }
                 }
                 match batch {
                     "prng-shuffle" => {}
